@@ -21,7 +21,10 @@ Compile-only part: two threads each call env.compile(text) on one shared environ
 has (or has not) compiled the text before; these bodies are short enough (119-458 scheduling
 points each) for ALL schedules with <= 2 preemptions, split into 16 slices by the smallest
 preemption of a schedule (quick: the same-text / already-compiled harness; thorough: all four).
-Oracle: both threads get a query that prints and evaluates like the sequential one.
+Oracle: both threads get a query that prints and evaluates like the sequential one.  Thorough
+repeats the compile-only harnesses with a scheduling point before every BYTECODE instruction of
+package code (frame.f_trace_opcodes), so that a preemption can also fall between the load and the
+store of an in-place update: <= 2 preemptions for the first harness, <= 1 for the others.
 """
 import itertools
 import os
@@ -41,7 +44,7 @@ RULE = (
     "construction; non-trivial = schedules in which at least two iterators/threads are live at once"
 )
 ASSUMPTIONS = [
-    "thread schedules are explored at source-line granularity under the GIL; interleavings inside one line and inside C extensions (regex) are not covered",
+    "thread schedules are explored at source-line granularity under the GIL (bytecode granularity for the compile-only harnesses in thorough); interleavings inside C extensions (regex) are not covered",
     "cooperative scheduling: exactly one thread runs between scheduling points",
 ]
 
@@ -75,7 +78,8 @@ def BOUNDS(tier):
             "thread_preemption_bound": 1 if tier == "quick" else 2,
             "thread_executions_cap_per_harness": None if tier == "quick" else 6000,
             "compile_only_harnesses": [w[0] for w in (W_HARNESS[:1] if tier == "quick" else W_HARNESS)],
-            "compile_only_preemption_bound": 2, "compile_only_cap": None}
+            "compile_only_preemption_bound": 2, "compile_only_cap": None,
+            "compile_only_bytecode_granularity": None if tier == "quick" else "bound 2 for the first harness, bound 1 for the others"}
 
 
 def _twin(x):
@@ -383,6 +387,10 @@ def shards(tier):
     ws = [0] if tier == "quick" else range(len(W_HARNESS))
     out += [{"part": "warm", "w": w, "slice": i, "tier": tier} for w in ws for i in range(W_SLICES)]
     if tier == "thorough":
+        # the same compile-only harnesses at bytecode granularity (a scheduling point before every
+        # instruction of package code): all schedules with <= 1 preemption, <= 2 for the first harness
+        out += [{"part": "warm", "w": w, "slice": i, "tier": tier, "opcodes": True, "bound": 2 if w == 0 else 1}
+                for w in range(len(W_HARNESS)) for i in range(W_SLICES)]
         out += [{"part": "threads", "h": len(T_HARNESS) + k, "tier": tier, "bound": 1} for k in range(len(T_HARNESS_3))]
     return out
 
@@ -407,7 +415,9 @@ def check_case(case):
     obs_of = getattr(make, "obs", lambda x: x)
     pre = tuple(((t, s), to) for t, s, to in case["preemptions"])
     try:
-        exe = ts.Execution(make(), pkg_dir(), case["first"], pre).run()
+        if case.get("opcodes"):
+            ts.Execution(make(), pkg_dir(), 0, (), opcodes=True).run()  # see threads.explore: warm-up
+        exe = ts.Execution(make(), pkg_dir(), case["first"], pre, opcodes=bool(case.get("opcodes"))).run()
     except ts.Hang as h:
         return violation("thread-hang", case, "terminates", str(h), "interference")
     obs = [exe.errors[i] or obs_of(exe.results[i]) for i in range(len(seq))]
@@ -511,7 +521,11 @@ def run_shard(desc):
 
         if warm:
             sl = desc["slice"]
-            found, stats = ts.explore(make, pkg_dir(), 2, check, keep=lambda first, pre: _slice_of(first, pre) == sl)
+            found, stats = ts.explore(make, pkg_dir(), desc.get("bound", 2), check,
+                                      keep=lambda first, pre: _slice_of(first, pre) == sl,
+                                      opcodes=desc.get("opcodes", False))
+            if desc.get("opcodes"):
+                sh.bump("executions_at_bytecode_granularity", stats["executions"])
         else:
             found, stats = ts.explore(make, pkg_dir(), desc.get("bound", 1 if tier == "quick" else 2), check,
                                       max_executions=None if tier == "quick" else 6000)
@@ -527,7 +541,7 @@ def run_shard(desc):
         for schedule, bad in found:
             sh.violation(violation("thread-interference",
                                    {"part": "warm", "w": h, "first": schedule["first"],
-                                    "preemptions": schedule["preemptions"]} if warm else
+                                    "preemptions": schedule["preemptions"], "opcodes": bool(desc.get("opcodes"))} if warm else
                                    {"part": "threads", "h": h, "first": schedule["first"],
                                     "preemptions": schedule["preemptions"]},
                                    "sequential observations", bad, "interference"))
